@@ -293,3 +293,12 @@ impl SoftLock {
 pub fn read_txn_trim_ts(txn: &crate::server::QueryServerReadTransaction<'_>) -> Duration {
     txn.trim_cid().ts
 }
+
+// ---- idm-auth begin
+/// Re-key this thread's `rand::rng()` from the OS entropy source (which the simulator interposes),
+/// so that values drawn through the thread RNG (auth transaction sid, TOTP secrets, backup codes,
+/// salts) depend on the current event's entropy stream only and not on earlier runs of the process.
+pub fn reseed_thread_rng() {
+    let _ = rand::rng().reseed();
+}
+// ---- idm-auth end
